@@ -11,10 +11,10 @@ NOTE = ("Trusted base: Coq 8.16.1 kernel (vm_compute in Examples only, no native
         "sampled inputs only. Assumes no size_t overflow, allocator returns distinct suitably aligned blocks.")
 
 CLAIMS = {
- "C01": ("refinement proof (Rep invariant, induction over histories) + differential correspondence",
+ "C01": ("refinement proof (Rep invariant, induction over histories; trivially relocatable lists: every operation; non-trivial value types: every operation except erase with a tail) + differential correspondence",
          "Theorem C01_refinement(_every_step): for every well-formed list of trivially relocatable types and every valid history the byte-level model "
-         "reads back exactly the spec list of tuples (Refine.v, ~600 lines, closed under the global context). Non-trivially-relocatable lists are "
-         "covered by the correspondence + oracle only (erase on them is a recorded known finding). Tie: random histories on ~55 lists, full observation streams.",
+         "reads back exactly the spec list of tuples (Refine.v). C01_refinement_every_list / C01_step_every_list (NtRefine.v): the same for EVERY well-formed list, non-trivial value types included, over emplace_back, pop_back, clear, erase of the last element, erase(first,end()) and reserve (destruction scribbles over the destroyed objects only; relocation through copy/move constructors reproduces every byte). "
+         "erase with elements behind the erased ones on non-trivial lists is the recorded known finding and is decided by the correspondence + oracle. Tie: random histories on ~55 lists, full observation streams.",
          "5 C01"),
  "C03": ("proof by induction over the parameter list (abstract-state invariant) + correspondence",
          "Theorem C03_placement_aligned: soundness of the compile-time trailing-alignment analysis for every list, count vector and SA-aligned address; "
